@@ -62,7 +62,7 @@ partial def oracleRows (initAcb : Rat) (c3 : Bool) (complete : Bool) (i : Nat) (
         [("C01", s!"row {i}: pre status ({ratToString x.pre.shares},{showOpt x.pre.acb}) is not the affiliate's book ({ratToString b.shares},{showOpt b.acb})")]
       else if !bookClose b' x.post.shares x.post.acb then
         [("C01", s!"row {i}: post status ({ratToString x.post.shares},{showOpt x.post.acb}) deviates from the average-cost rules ({ratToString b'.shares},{showOpt b'.acb})")]
-      else if !closeOpt expGain x.gain then
+      else if !closeOptAt (rabs (b.acb.getD 0) + rabs lossOf) expGain x.gain then
         [("C01", s!"row {i}: gain {showOpt x.gain} deviates from proceeds-commission-cost-sfl {showOpt expGain}")]
       else []
     let e4 : List (String × String) :=
@@ -97,7 +97,10 @@ partial def oracleRows (initAcb : Rat) (c3 : Bool) (complete : Bool) (i : Nat) (
     let e3 : List (String × String) :=
       if c3 && boundary && !st'.overSeen then
         let rhs := st'.proceeds - st'.costs - initAcb + st'.roc + sumAcb st'
-        if rabs (st'.gains - rhs) ≤ ((i + 1 : Nat) : Rat) / pow10 9 then []
+        -- 1e-9 per row; beyond 10^13 a 28-digit decimal cannot resolve that: relative 1e-22 per row
+        let mag := [rabs st'.gains, rabs st'.proceeds, rabs st'.costs, rabs (sumAcb st')].foldl (fun m x => if m < x then x else m) 0
+        let unit : Rat := if 1 / pow10 9 < mag / pow10 22 then mag / pow10 22 else 1 / pow10 9
+        if rabs (st'.gains - rhs) ≤ ((i + 1 : Nat) : Rat) * unit then []
         else [("C03", s!"after row {i}: gains so far {ratToString st'.gains} ≠ proceeds−costs+roc+held cost base {ratToString rhs}")]
       else []
     let errs := e1 ++ e4 ++ e3 ++ e15
